@@ -46,10 +46,24 @@ type backend struct {
 	dead   bool
 	sent   int // check-sat commands sent
 	read   int // check-sat answers consumed
+	taint  bool // has chewed on a slow query: replaced at the next path boundary (see BeginPath)
 }
 
+// limited wraps a solver command so that the process cannot take more than solverMemKB of address space
+// (a solver that blows up on one query dies and is restarted / reported unknown instead of taking the machine down).
+func limited(args []string) []string {
+	return append([]string{"-c", fmt.Sprintf("ulimit -v %d; exec \"$@\"", solverMemKB), "sh"}, args...)
+}
+
+var solverMemKB = func() int {
+	if v, err := strconv.Atoi(os.Getenv("SSE_SOLVER_MEM_KB")); err == nil && v > 0 {
+		return v
+	}
+	return 4 << 20 // 4 GiB
+}()
+
 func startBackend(name string, args []string, pre string, sink chan msg) (*backend, error) {
-	cmd := exec.Command(args[0], args[1:]...)
+	cmd := exec.Command("/bin/sh", limited(args)...)
 	in, err := cmd.StdinPipe()
 	if err != nil {
 		return nil, err
@@ -287,11 +301,16 @@ func (s *Solver) kill(b *backend, why string) {
 // recycleAfter: check-sat commands after which a back end is replaced at the next path boundary.
 const recycleAfter = 4000
 
+// slowQuery: a query slower than this marks the back ends that worked on it for replacement.
+const slowQuery = 1500 * time.Millisecond
+
 // BeginPath opens the scope of one explored path.
 func (s *Solver) BeginPath() {
 	// a back end that died or lost synchronisation is replaced by a fresh process (no state is carried between paths)
 	for i, b := range s.bs {
-		if !b.dead && b.sent >= recycleAfter {
+		// A back end that has worked on a hard query stays slow afterwards even on trivial ones (measured with
+		// z3 4.8.12: after one 3 s query every later check-sat/get-value of the process took ~3 s, pop or not).
+		if !b.dead && (b.sent >= recycleAfter || b.taint) {
 			// incremental solvers (cvc5 in particular) grow without bound over push/pop; between paths
 			// nothing is carried over, so a fresh process is equivalent (the old one goes only once the new one is up)
 			if nb, err := s.spawn(b.name); err == nil {
@@ -572,6 +591,11 @@ loop:
 		}
 	}
 	s.Time += time.Since(t0)
+	if time.Since(t0) > slowQuery {
+		for b := range racing {
+			b.taint = true
+		}
+	}
 	if slowLog && time.Since(t0) > 500*time.Millisecond {
 		w := "-"
 		if winner != nil {
@@ -733,6 +757,13 @@ func (s *Solver) Values(ts []*term.T) []uint64 {
 }
 
 func (s *Solver) readValues(b *backend, n int) []uint64 {
+	t0 := time.Now()
+	defer func() {
+		s.Time += time.Since(t0)
+		if time.Since(t0) > slowQuery {
+			b.taint = true
+		}
+	}()
 	var sb strings.Builder
 	depth := 0
 	started := false
@@ -957,7 +988,7 @@ func (s *Solver) escalate() (Result, map[int32]uint64) {
 	ch := make(chan escResult, len(cfgs))
 	for _, c := range cfgs {
 		go func(c cfg) {
-			cmd := exec.CommandContext(ctx, c.args[0], c.args[1:]...)
+			cmd := exec.CommandContext(ctx, "/bin/sh", limited(c.args)...)
 			cmd.Stdin = strings.NewReader(c.pre + body)
 			out, runErr := cmd.Output()
 			txt := string(out)
